@@ -246,3 +246,120 @@ def stubs():
 
 
 LEMMAS = ['u32_val', 'u32_bytes', 'u32_arith', 'rep_len', 'rep_first', 'val_be_ff', 'val_be_00', 'concat_init', 'val_be_concat', 'val_be_word', 'val_be_half', 'pow256_4', 'pow256_add']
+
+
+# ---------------------------------------------------------------------------------------------------- bounded stand-ins
+# (never counted as proved) for the parts of C10 that have no discharged contract yet: mpint *encoders*
+# (WriteBuf._create_mpint), whole-message round trips, the SSH-1 CRC.
+NATIVE_ROUNDTRIP = r'''
+import json, itertools, random
+from ssh_audit.readbuf import ReadBuf
+from ssh_audit.writebuf import WriteBuf
+from ssh_audit.ssh2_kex import SSH2_Kex
+from ssh_audit.ssh2_kexparty import SSH2_KexParty
+from ssh_audit.ssh1_publickeymessage import SSH1_PublicKeyMessage
+from ssh_audit.outputbuffer import OutputBuffer
+cases, failures = 0, []
+def fail(inp, got, want):
+    if len(failures) < 8:
+        failures.append({'input': inp, 'got': got, 'want': want})
+# --- mpints of either sign: dense window around 0 and around +-2^k, every 32-bit word pattern at the boundaries
+vals = set(range(-300, 301))
+for k in list(range(1, 130)) + [255, 256, 257, 511, 512, 1023, 1024, 2047, 2048, 4095, 4096, 8191, 8192]:
+    for d in (-2, -1, 0, 1, 2):
+        vals.add(2 ** k + d); vals.add(-(2 ** k) + d)
+for hi in (0x7f, 0x80, 0xff, 0x01):
+    for lo in (0x00000000, 0x7fffffff, 0x80000000, 0xffffffff):
+        for words in (1, 2, 3):
+            v = hi
+            for _ in range(words):
+                v = (v << 32) | lo
+            vals.add(v); vals.add(-v)
+rnd = random.Random(1234)
+for _ in range(300):
+    vals.add(rnd.getrandbits(rnd.randrange(1, 600)) * rnd.choice((1, -1)))
+def rfc_mpint2(n):
+    # RFC 4251 section 5: two's complement, big-endian, minimal length, zero is the empty string
+    if n == 0:
+        return b''
+    l = (n.bit_length() // 8) + 1 if n > 0 else ((n + 1).bit_length() // 8) + 1
+    return n.to_bytes(l, 'big', signed=True)
+for n in sorted(vals):
+    cases += 1
+    w = WriteBuf(); w.write_mpint2(n); p = w.write_flush()
+    body = rfc_mpint2(n)
+    want = len(body).to_bytes(4, 'big') + body
+    if p != want:
+        fail({'mpint2': str(n)}, p.hex(), want.hex())
+    r = ReadBuf(p).read_mpint2()
+    if r != n:
+        fail({'mpint2 round trip': str(n)}, str(r), str(n))
+    if n >= 0:
+        w = WriteBuf(); w.write_mpint1(n); p = w.write_flush()
+        body = n.to_bytes((n.bit_length() + 7) // 8, 'big')
+        want = n.bit_length().to_bytes(2, 'big') + body if n.bit_length() < 65536 else None
+        if want is not None and p != want:
+            fail({'mpint1': str(n)}, p.hex(), want.hex())
+        r = ReadBuf(p).read_mpint1()
+        if r != n:
+            fail({'mpint1 round trip': str(n)}, str(r), str(n))
+# --- whole KEXINIT: ten pairwise different name-lists, parse(payload) field-equal and payload reproduced
+out = OutputBuffer()
+names = [['kexA', 'kexB'], ['keyA'], ['cencA', 'cencB', 'cencC'], ['sencA'], ['cmacA'], ['smacA', 'smacB'], ['ccompA'], ['scompA', 'scompB'], ['en-US'], ['de-DE', 'fr-FR']]
+for rot in range(10):
+    l = names[rot:] + names[:rot]
+    for follows, unused in ((False, 0), (True, 7), (False, 0xffffffff)):
+        cases += 1
+        cli = SSH2_KexParty(l[2], l[4], l[6], l[8]); srv = SSH2_KexParty(l[3], l[5], l[7], l[9])
+        k = SSH2_Kex(out, bytes(range(16)), l[0], l[1], cli, srv, follows, unused)
+        p = k.payload
+        k2 = SSH2_Kex.parse(out, p)
+        got = [k2.cookie, k2.kex_algorithms, k2.key_algorithms, k2.client.encryption, k2.server.encryption, k2.client.mac, k2.server.mac, k2.client.compression, k2.server.compression, k2.client.languages, k2.server.languages, k2.follows, k2.unused]
+        want = [bytes(range(16))] + l + [follows, unused]
+        if got != want:
+            fail({'kexinit fields': l}, repr(got), repr(want))
+        if k2.payload != p:
+            fail({'kexinit re-encode': l}, k2.payload.hex(), p.hex())
+# --- SSH-1 public key message
+for skey, hkey, flags, cm, am in (((768, 0x10001, 0xc0ffee), (1024, 0x23, 0xdeadbeef1234567), 2, 0x48, 0x2c), ((1, 1, 1), (2, 3, 2 ** 600 + 1), 0, 0, 0), ((0xffffffff, 0, 0), (7, 2 ** 64, 2 ** 65 - 1), 0xffffffff, 0xffffffff, 0xffffffff)):
+    cases += 1
+    m = SSH1_PublicKeyMessage(b'\x01\x02\x03\x04\x05\x06\x07\x08', skey, hkey, flags, cm, am)
+    p = m.payload
+    m2 = SSH1_PublicKeyMessage.parse(p)
+    got = ((m2.server_key_bits, m2.server_key_public_exponent, m2.server_key_public_modulus), (m2.host_key_bits, m2.host_key_public_exponent, m2.host_key_public_modulus), m2.protocol_flags, m2.supported_ciphers_mask, m2.supported_authentications_mask, m2.cookie)
+    want = (skey, hkey, flags, cm, am, b'\x01\x02\x03\x04\x05\x06\x07\x08')
+    if got != want:
+        fail({'pkm': repr((skey, hkey))}, repr(got), repr(want))
+    if m2.payload != p:
+        fail({'pkm re-encode': repr((skey, hkey))}, m2.payload.hex(), p.hex())
+print(json.dumps({'cases': cases, 'failures': failures}))
+'''
+
+NATIVE_CRC = r'''
+import json, random
+from ssh_audit.ssh1_crc32 import SSH1_CRC32
+from ssh_audit.ssh1 import SSH1
+def crc_bitwise(data):
+    # reflected CRC-32, polynomial 0xEDB88320, initial value 0, no final xor (the SSH-1 variant), bit by bit
+    crc = 0
+    for b in data:
+        crc ^= b
+        for _ in range(8):
+            crc = (crc >> 1) ^ (0xedb88320 if crc & 1 else 0)
+    return crc
+cases, failures = 0, []
+c = SSH1_CRC32()
+for i in range(256):
+    cases += 1
+    want = crc_bitwise(bytes([i]))
+    if c._table[i] != want and len(failures) < 4:
+        failures.append({'input': {'table index': i}, 'got': hex(c._table[i]), 'want': hex(want)})
+rnd = random.Random(7)
+datas = [bytes([a]) for a in range(256)] + [bytes([a, b]) for a in (0, 1, 0x80, 0xff) for b in range(256)] + [bytes(rnd.getrandbits(8) for _ in range(n)) for n in range(0, 200)]
+for d in datas:
+    cases += 1
+    got, want = c.calc(d), crc_bitwise(d)
+    if (got != want or SSH1.crc32(d) != want) and len(failures) < 8:
+        failures.append({'input': {'data': d.hex()}, 'got': hex(got), 'want': hex(want)})
+print(json.dumps({'cases': cases, 'failures': failures}))
+'''
